@@ -23,6 +23,16 @@ CLAIMS = {
   text="Decides the structural clauses necessary for cache transparency, for every memo site of the registry and its objects and every post-construction writer of their dependencies: KEY (lookup key == store key == compute argument; conversion_factor orientation src/dst; overlays keyed by ContextChain.hashable() covering all Context fields), GUARD (write guard equals read guard for parse_unit/as_delta and _base_units_cache/check_nonmult+default system), HIT (a cache loaded from disk is installed; miss paths return what they store; save after build), INV (default_system setter resets on every path; the context switch swaps self._cache and drops overlays on every path; identity-validated memos _base_units_cache vs self._cache and Quantity._dimensionality vs self._units are validated before every read and reset on the stale edge; Group/System membership writers call invalidate_members which propagates to parents and systems; ContextChain._graph reset by every editor of maps/contexts; adders drop the cached parse of the spelling they store; writers of the process-wide format table clear the lru_cached _split_format; Unit._units only written in __init__), FILL (dimensional_equivalents: reported as KNOWN-FINDING, see known_findings.json), and the writer inventory of module-level mutable tables. It does not compare any answer with that of a fresh registry - that needs execution.",
   note="Trusted: CPython ast; /verif/sa CFG and write summaries (mutating-method list in sa/flow.py). Memo idioms outside the recognised set are listed in evidence as untriaged, not proved. The lazily registered prefixed units in _units are covered by C08.",
   ref="DESIGN.md §4 C13, Appendix B"),
+ "C11": dict(
+  technique="static analysis: typestate of the search frontier, CFG must-pass-through, def-use provenance of arguments and override order (ast-based, repository-specific)",
+  text="Decides the structural clauses necessary for C11 on /repo's current source: util.find_shortest_path uses its deque strictly first-in first-out, returns at first discovery of the target with path + [node], answers start == end with the trivial path and an unreachable target with None (breadth-first, hence shortest); ContextRegistry._convert searches the active graph from dim(src) to dim(dst), applies transform(a, b, self, value) over consecutive pairs of the path in order and reaches every normal exit through super()._convert; the chain keeps contexts and maps prepended in reversed order and truncated alike, resets _graph in every editor, builds edges src->dst, looks rules up through the ChainMap and calls them with the context's defaults; call kwargs override enclosing defaults which override declared defaults; Relation.transformation evaluates the equation with value and parameters; reverse rules only for <->; _redefine rejects unknown, prefixed and base units and dimension changes before define. It does not evaluate rule equations or numeric results.",
+  note="Trusted: CPython ast; /verif/sa CFG. Another correct search idiom (e.g. Dijkstra with a heap) would be reported as ANALYSIS-ERROR/violation of the FIFO typestate and would need the rule extended.",
+  ref="DESIGN.md §4 C11"),
+ "C14": dict(
+  technique="static analysis: G-MEMO guard/invalidation rules, def-use provenance of set algebra and unit substitution, sibling agreement of to/ito twins (ast-based, repository-specific)",
+  text="Decides the structural clauses necessary for C14: _base_units_cache is written under exactly the conditions it is read under, reset by the default_system setter on every path and validated against the switched registry cache; every Group/System membership writer invalidates the memoised members, invalidation propagates to parent groups and to systems, _used_groups/_used_by are updated together and the cycle test precedes linking; members = own units ∪ transitively used groups, system members = union over its groups; restricted compatible-unit listings are the plain listing ∩ members and unknown names raise; the default group receives root members minus all other groups' members; _get_base_units keeps exponents when substituting, converts the factor from root units to the substituted units, looks the system up without creating it and treats None as the default system; to_base_units/ito_base_units (and the root twins) take their target from the same registry function; System.__getattr__ tries <system>_<name> first. It does not decide the rule inversion arithmetic in System.from_definition, value preservation or idempotence.",
+  note="Trusted: CPython ast; /verif/sa CFG and write summaries.",
+  ref="DESIGN.md §4 C14"),
 }
 
 REASONS_PENDING = "rule pack under construction (see DESIGN.md §4); not claimed yet"
